@@ -88,6 +88,40 @@ def mutants_of_line(code):
     return out
 
 
+ERRSWAP = [
+    ("DataOutOfRange", "IllegalParameterValue"), ("IllegalParameterValue", "DataOutOfRange"), ("DataTypeError", "ExecutionError"),
+    ("MissingParameter", "ParameterNotAllowed"), ("ParameterNotAllowed", "MissingParameter"), ("UndefinedHeader", "CommandHeaderError"),
+    ("OutOfMemory", "SystemError"), ("QueueOverflow", "OutOfMemory"), ("SyntaxError", "ExecutionError"), ("InvalidCharacter", "DeviceSpecificError"),
+    ("SuffixNotAllowed", "SettingsConflict"), ("InvalidBlockData", "QueryError"), ("InvalidStringData", "HardwareError"), ("NumericDataError", "DataOutOfRange"),
+    ("InvalidSeparator", "SyntaxError"), ("ExponentTooLarge", "DataOutOfRange"), ("TooManyDigits", "DataOutOfRange"), ("InvalidSuffix", "DataOutOfRange"),
+    ("CharacterDataTooLong", "DataOutOfRange"), ("ProgramMnemonicTooLong", "DataOutOfRange"), ("SuffixTooLong", "DataOutOfRange"), ("InvalidExpression", "ExecutionError"),
+    ("OperationComplete", "PowerOn"), ("NoError", "DeviceSpecificError"),
+]
+
+
+def mutants2_of_line(code, stripped):
+    """second operator set: statement deletion, forced conditions, error-code swaps"""
+    out = []
+    # statement deletion: a call / assignment statement on one line
+    if stripped.endswith(";") and not stripped.startswith(("let ", "return", "use ", "pub ", "const ", "static ", "type ", "break", "continue", "}", "//", "#")) and "=>" not in stripped:
+        if re.match(r"^[A-Za-z_*(&]", stripped) and ("(" in stripped or "=" in stripped):
+            out.append(("del", len(code) - len(code.lstrip()), code.strip(), "();"))
+    m = re.match(r"^(\s*)(\}\s*else\s+)?if\s+(?!let\b)(.+?)\s*\{\s*$", code)
+    if m:
+        cond = m.group(3)
+        pos = code.find(cond)
+        out.append(("cond", pos, cond, "true"))
+        out.append(("cond", pos, cond, "false"))
+    m = re.match(r"^(\s*)while\s+(?!let\b)(.+?)\s*\{\s*$", code)
+    if m:
+        cond = m.group(2)
+        out.append(("cond", code.find(cond), cond, "false"))
+    for a, b in ERRSWAP:
+        for mm in re.finditer(r"ErrorCode::" + a + r"\b", code):
+            out.append(("errswap", mm.start(), "ErrorCode::" + a, "ErrorCode::" + b))
+    return out
+
+
 def main():
     root = sys.argv[1]
     cap = int(sys.argv[2]) if len(sys.argv) > 2 else 10**9
@@ -121,7 +155,8 @@ def main():
             if "code=" in s or "doc=" in s or s.startswith("///") or s.startswith("//!"):
                 continue
             code = code_part(line)
-            for (op, pos, old, new) in mutants_of_line(code):
+            gen = mutants2_of_line(code, s) if os.environ.get("MUT_OPS") == "2" else mutants_of_line(code)
+            for (op, pos, old, new) in gen:
                 # do not touch string literal contents: crude test - odd number of quotes before pos
                 if code[:pos].count('"') % 2 == 1:
                     continue
